@@ -503,6 +503,29 @@ func (ff *FuncFlow) collector(call *ast.CallExpr, leaf ast.Expr) *types.Var {
 		if be.Op == token.EQL {
 			if eb, ok := is.Else.(*ast.BlockStmt); ok {
 				branch = eb
+			} else if is.Else == nil && len(is.Body.List) > 0 {
+				// `if err == nil { continue }`: what follows in the same list is the non-nil branch
+				last, isBr := is.Body.List[len(is.Body.List)-1].(*ast.BranchStmt)
+				if !isBr || last.Tok != token.CONTINUE {
+					return true
+				}
+				var rest []ast.Stmt
+				ast.Inspect(ff.FD.Decl.Body, func(m ast.Node) bool {
+					var list []ast.Stmt
+					switch b := m.(type) {
+					case *ast.BlockStmt:
+						list = b.List
+					case *ast.CaseClause:
+						list = b.Body
+					}
+					for i, st := range list {
+						if st == ast.Stmt(is) {
+							rest = list[i+1:]
+						}
+					}
+					return rest == nil
+				})
+				branch = &ast.BlockStmt{List: rest}
 			} else {
 				return true
 			}
